@@ -66,6 +66,20 @@ func (s stubIBC) Transfer(context.Context, *transfertypes.MsgTransfer) (*transfe
 	return &transfertypes.MsgTransferResponse{}, nil
 }
 
+// regCore: the fields the model carries (denom, unit denom, permissions) — the answer format of `reg` lines
+func regCore(r trtypes.Registry) string {
+	if len(r.Entries) == 0 {
+		return "-"
+	}
+	parts := make([]string, len(r.Entries))
+	for i, en := range r.Entries {
+		c := *en
+		c.BaseDenom, c.IbcCounterpartyDenom, c.DisplayName, c.DisplaySymbol, c.ExternalSymbol = "", "", "", "", ""
+		parts[i] = entryDump(&c)
+	}
+	return strings.Join(parts, ";")
+}
+
 func regDump(r trtypes.Registry) string {
 	if len(r.Entries) == 0 {
 		return "-"
@@ -89,7 +103,10 @@ func entryDump(en *trtypes.RegistryEntry) string {
 	if p == "" {
 		p = "-"
 	}
-	return fmt.Sprintf("%s,%s,%s", en.Denom, u, p)
+	if en.BaseDenom == "" && en.IbcCounterpartyDenom == "" && en.DisplayName == "" && en.DisplaySymbol == "" && en.ExternalSymbol == "" {
+		return fmt.Sprintf("%s,%s,%s", en.Denom, u, p)
+	}
+	return fmt.Sprintf("%s,%s,%s,%s~%s~%s~%s~%s", en.Denom, u, p, dashed(en.BaseDenom), dashed(en.IbcCounterpartyDenom), dashed(en.DisplayName), dashed(en.DisplaySymbol), dashed(en.ExternalSymbol))
 }
 
 var fivePerms = []trtypes.Permission{trtypes.Permission_CLP, trtypes.Permission_IBCEXPORT, trtypes.Permission_IBCIMPORT,
@@ -125,6 +142,13 @@ const (
 	tokX = "xusdc" // never has a pool; alias experiments
 )
 
+// denoms that are funded in the bank but, in the trials, appear in the registry ONLY as some other
+// entry's base denom / unit denom / counterparty denom / display name / symbol — or are prefixes,
+// suffixes and case variants of registered denoms.  Only the permission gate can refuse them.
+var ghostPool = []string{"uatom", "CUSDC"}                                  // a pool and an LP exist
+var ghostNoPool = []string{"xatom", "cusd", "cusdcx", "Cusdc", "ATOM", "owan"} // no pool: CreatePool, Transfer
+const voucher = "ibc/27394FB092D2ECCD56123C74F36E4C1F926001CEADA9CA97EA622B25F41E5EB2"
+
 type permEnv struct {
 	*env
 	tr    trtypes.MsgServer
@@ -133,9 +157,9 @@ type permEnv struct {
 }
 
 func newPermEnv() *permEnv {
-	e := newEnv(2, []string{tokA, tokB, tokC, tokX})
+	e := newEnv(2, append(append([]string{tokA, tokB, tokC, tokX, voucher}, ghostPool...), ghostNoPool...))
 	pe := &permEnv{env: e, tr: trkeeper.NewMsgServerImpl(e.app.TokenRegistryKeeper), user: e.accts[0], whale: e.accts[1]}
-	for _, p := range []string{tokA, tokB} {
+	for _, p := range append([]string{tokA, tokB}, ghostPool...) {
 		msg := &clptypes.MsgCreatePool{Signer: pe.whale.String(), ExternalAsset: &clptypes.Asset{Symbol: p}, NativeAssetAmount: pow10(24), ExternalAssetAmount: pow10(24)}
 		if err, _ := e.deliver(2, msg.ValidateBasic, func(ctx sdk.Context) error { _, err := e.clp.CreatePool(sdk.WrapSDKContext(ctx), msg); return err }); err != nil {
 			panic(err)
@@ -389,7 +413,7 @@ func init() {
 			return es
 		}
 		emitReg := func(ctx sdk.Context, line string) {
-			out.Emit(line, regDump(pe.storedRegistry(ctx)), "reg."+strings.Fields(line)[1], false)
+			out.Emit(line, regCore(pe.storedRegistry(ctx)), "reg."+strings.Fields(line)[1], false)
 		}
 		// ---- L0: GetLiquidityAddSymmetryState on ratios around equality
 		for i := 0; i < 400+n/10; i++ {
@@ -525,6 +549,103 @@ func init() {
 				pe.run(tctx, m, out)
 			}
 		}
+		// ---- denoms that are NOT registered but are named by other entries: IBC-voucher shaped entries
+		// (denom ibc/<hash>) and aliases whose base denom / unit denom / counterparty denom / display
+		// name / display symbol / external symbol is the denom the message names
+		ghostMsgs := func(g string, hasPool bool) []permMsg {
+			ms := []permMsg{
+				{kind: "transfer", route: "ghost", token: g, amount: 1000},
+			}
+			if hasPool {
+				ms = append(ms,
+					permMsg{kind: "rm", route: "ghost", ext: g},
+					permMsg{kind: "rmu", route: "ghost", ext: g},
+					permMsg{kind: "add", route: "ghost.sym", ext: g, r: pow10(18), a: pow10(18)},
+					permMsg{kind: "add", route: "ghost.sell", ext: g, r: pow10(18), a: sdk.ZeroUint()},
+					permMsg{kind: "swap", route: "ghost.r2e", sent: "rowan", received: g},
+					permMsg{kind: "swap", route: "ghost.e2r", sent: g, received: "rowan"},
+					permMsg{kind: "swap", route: "ghost.e2e", sent: g, received: tokA},
+					permMsg{kind: "swap", route: "ghost.e2e.b", sent: tokA, received: g})
+			} else {
+				ms = append(ms, permMsg{kind: "createpool", route: "ghost", ext: g})
+			}
+			return ms
+		}
+		fieldSetters := []func(en *trtypes.RegistryEntry, g string){
+			func(en *trtypes.RegistryEntry, g string) { en.BaseDenom = g },
+			func(en *trtypes.RegistryEntry, g string) { en.UnitDenom = g },
+			func(en *trtypes.RegistryEntry, g string) { en.IbcCounterpartyDenom = g },
+			func(en *trtypes.RegistryEntry, g string) { en.DisplayName = g },
+			func(en *trtypes.RegistryEntry, g string) { en.DisplaySymbol = g },
+			func(en *trtypes.RegistryEntry, g string) { en.ExternalSymbol = g },
+			func(en *trtypes.RegistryEntry, g string) {
+				en.BaseDenom, en.UnitDenom, en.IbcCounterpartyDenom, en.DisplayName, en.DisplaySymbol, en.ExternalSymbol = g, g, g, g, g, g
+			},
+		}
+		fullMask := 1 | 2 | 4 // CLP, IBCEXPORT, IBCIMPORT: everything a message could need
+		ghostTrial := func(g string, hasPool bool, carrier string, set func(*trtypes.RegistryEntry, string), mask int, own int, m permMsg) {
+			tctx, _ := base.CacheContext()
+			entries := good()
+			if carrier == tokA { // the carrier is one of the ordinary entries: rewrite it
+				for _, en := range entries {
+					if en.Denom == tokA {
+						en.Permissions = permsOfMask(mask)
+						set(en, g)
+					}
+				}
+			} else {
+				en := entryOf(carrier, mask, "")
+				set(en, g)
+				entries = append(entries, en)
+			}
+			if own >= 0 { // sometimes the named denom does have its own entry: the exact match decides
+				entries = append(entries, entryOf(g, own, ""))
+			}
+			if rng.Chance(1, 2) { // carrier first or last
+				entries[0], entries[len(entries)-1] = entries[len(entries)-1], entries[0]
+			}
+			out.Emit("reset", "ok", "reset", false)
+			pe.setRegistry(tctx, entries)
+			emitReg(tctx, "reg set "+regDump(trtypes.Registry{Entries: entries}))
+			pe.run(tctx, m, out)
+		}
+		for _, hp := range []bool{true, false} {
+			gs := ghostNoPool
+			if hp {
+				gs = ghostPool
+			}
+			for _, g := range gs {
+				for _, m := range ghostMsgs(g, hp) {
+					for _, set := range fieldSetters {
+						ghostTrial(g, hp, voucher, set, fullMask, -1, m)
+					}
+					ghostTrial(g, hp, tokA, fieldSetters[0], fullMask, -1, m)
+					ghostTrial(g, hp, voucher, fieldSetters[6], fullMask, 0, m)        // own entry without permissions wins
+					ghostTrial(g, hp, voucher, fieldSetters[6], 0, fullMask, m)        // own entry with permissions wins
+					ghostTrial(g, hp, voucher, fieldSetters[rng.Intn(7)], rng.Intn(32), -1, m)
+				}
+			}
+		}
+		allGhosts := append(append([]string{}, ghostPool...), ghostNoPool...)
+		for t := 0; t < n/4; t++ {
+			gi := rng.Intn(len(allGhosts))
+			g := allGhosts[gi]
+			hp := gi < len(ghostPool)
+			ms := ghostMsgs(g, hp)
+			own := -1
+			if rng.Chance(1, 5) {
+				own = rng.Intn(32)
+			}
+			carrier := voucher
+			if rng.Chance(1, 4) {
+				carrier = tokA
+			}
+			mask := rng.Intn(32)
+			if rng.Chance(2, 3) {
+				mask |= fullMask
+			}
+			ghostTrial(g, hp, carrier, fieldSetters[rng.Intn(7)], mask, own, ms[rng.Intn(len(ms))])
+		}
 		// ---- transaction histories (baseapp runMsgs discipline): a chain whose committed state evolves;
 		// every transaction runs ALL its messages on ONE branch, stops at the first failing message
 		// and is written back only if all succeeded and it is not a simulation.  Several transactions
@@ -542,7 +663,18 @@ func init() {
 			if rng.Chance(1, 8) {
 				unit = all[rng.Intn(len(all))]
 			}
-			return entryOf(tk, mask, unit)
+			en := entryOf(tk, mask, unit)
+			if rng.Chance(1, 4) { // voucher / alias shaped: names other denoms in its descriptive fields
+				if rng.Chance(1, 2) {
+					en.Denom = voucher
+				}
+				others := append(append([]string{}, all...), ghostPool...)
+				others = append(others, ghostNoPool...)
+				en.BaseDenom = others[rng.Intn(len(others))]
+				en.IbcCounterpartyDenom = others[rng.Intn(len(others))]
+				en.DisplayName = others[rng.Intn(len(others))]
+			}
+			return en
 		}
 		nHist := 2 + n/60
 		for hi := 0; hi < nHist; hi++ {
@@ -551,11 +683,21 @@ func init() {
 			height := int64(10)
 			out.Emit("reset", "ok", "reset", false)
 			he.setRegistry(cur.WithBlockHeight(height), good())
-			out.Emit("reg set "+regDump(trtypes.Registry{Entries: good()}), regDump(he.storedRegistry(cur)), "reg.set", false)
+			out.Emit("reg set "+regDump(trtypes.Registry{Entries: good()}), regCore(he.storedRegistry(cur)), "reg.set", false)
 			pickMsg := func(ctx sdk.Context) (permMsg, bool) {
 				m := msgs[rng.Intn(len(msgs))]
 				if m.kind == "transfer" && rng.Chance(1, 3) {
 					m.token = toks5[rng.Intn(len(toks5))]
+				}
+				if rng.Chance(1, 5) { // a denom that at most other entries name
+					gi := rng.Intn(len(ghostPool) + len(ghostNoPool))
+					if gi < len(ghostPool) {
+						gm := ghostMsgs(ghostPool[gi], true)
+						m = gm[rng.Intn(len(gm))]
+					} else {
+						gm := ghostMsgs(ghostNoPool[gi-len(ghostPool)], false)
+						m = gm[rng.Intn(len(gm))]
+					}
 				}
 				if m.kind == "createpool" {
 					if _, err := he.app.ClpKeeper.GetPool(ctx, m.ext); err == nil {
@@ -613,17 +755,17 @@ func init() {
 						switch it.edit {
 						case "register":
 							he.register(bctx, it.entry)
-							out.Emit("reg register "+entryDump(it.entry), regDump(he.storedRegistry(bctx)), "tx.reg.register", false)
+							out.Emit("reg register "+entryDump(it.entry), regCore(he.storedRegistry(bctx)), "tx.reg.register", false)
 						case "deregister":
 							he.deregister(bctx, it.denom)
-							out.Emit("reg deregister "+it.denom, regDump(he.storedRegistry(bctx)), "tx.reg.deregister", false)
+							out.Emit("reg deregister "+it.denom, regCore(he.storedRegistry(bctx)), "tx.reg.deregister", false)
 						case "set":
 							var es []*trtypes.RegistryEntry
 							for k := 0; k < 3+rng.Intn(4); k++ {
 								es = append(es, randEntry())
 							}
 							he.setRegistry(bctx, es)
-							out.Emit("reg set "+regDump(trtypes.Registry{Entries: es}), regDump(he.storedRegistry(bctx)), "tx.reg.set", false)
+							out.Emit("reg set "+regDump(trtypes.Registry{Entries: es}), regCore(he.storedRegistry(bctx)), "tx.reg.set", false)
 						}
 						continue
 					}
@@ -651,7 +793,7 @@ func init() {
 				if committed {
 					word = "committed"
 				}
-				out.Emit("tx end "+b2s(sim), word+" "+regDump(he.storedRegistry(cur)), "tx.end."+word, true)
+				out.Emit("tx end "+b2s(sim), word+" "+regCore(he.storedRegistry(cur)), "tx.end."+word, true)
 				out.Emit(fmt.Sprintf("chk c12.refused tag=tx.%s.state %s %s", word, b2s(committed), b2s(before == he.digest(cur))), "true", "chk.refused", false)
 			}
 		}
